@@ -46,7 +46,7 @@ func TestHandOverWithoutPrefetch(t *testing.T) {
 		if err != nil {
 			rt.Fatalf("provision wrapper: %v", err)
 		}
-		base, err := net.Listen("tcp", "127.0.0.1:0")
+		base, err := hx.Listen("tcp", "127.0.0.1:0")
 		if err != nil {
 			rt.Fatalf("listen: %v", err)
 		}
@@ -68,7 +68,7 @@ func TestHandOverWithoutPrefetch(t *testing.T) {
 			data, err := io.ReadAll(c)
 			got <- res{data, err}
 		}()
-		cli, err := net.Dial("tcp", base.Addr().String())
+		cli, err := hx.Dial("tcp", base.Addr().String())
 		if err != nil {
 			rt.Fatalf("dial: %v", err)
 		}
